@@ -154,6 +154,15 @@ class ComponentBump:
         """
         if self.to_rbuild is None:
             return {}
+        # builds included into previous versions of the component (and their
+        # ancestors) do not belong to this bump
+        known_rbuilds_iids = set()
+        rbuilds_to_visit = list(self.from_rbuilds.values())
+        while rbuilds_to_visit:
+            rbuild = rbuilds_to_visit.pop()
+            if rbuild.iid not in known_rbuilds_iids:
+                known_rbuilds_iids.add(rbuild.iid)
+                rbuilds_to_visit.extend(rbuild.parent_rbuilds.values())
         # DFS rbuilds in the component
         dfs_stack = [[self.to_rbuild]]
         dfs_sp = [0]
@@ -177,7 +186,7 @@ class ComponentBump:
 
             cur_rbuild = dfs_stack[-1][cur_sp]
 
-            if cur_rbuild.iid in self.from_rbuilds:
+            if cur_rbuild.iid in known_rbuilds_iids:
                 # do not go deeper
                 dfs_sp[-1] = cur_sp - 1
                 continue
